@@ -37,7 +37,7 @@ def one(d, tier, in_repo):
             assert r.returncode == 0, r.stderr
         r = run(f"git -C {wt} apply {patch}")
         if r.returncode != 0:
-            return (name, meta["property"], "patch does not apply", r.stderr.strip()[:80], 0)
+            return (name, meta["property"], "patch does not apply", r.stderr.strip()[:80].replace("\n", " ").replace("|", "/"), 0)
         props = meta.get("checks", [meta["property"]])
         verdicts = []
         t0 = time.time()
